@@ -72,6 +72,13 @@ func c19Jobs(tier string, seed int64) []string {
 	for b := 0; b < 4; b++ {
 		jobs = append(jobs, "chainf:"+strconv.Itoa(b)+":4:"+strconv.Itoa(3-b%3))
 	}
+	// a table whose prefix operator is also its highest priority binary operator (quick: a quarter by seed)
+	sf := 8
+	for b := 0; b < sf; b++ {
+		if tier == "thorough" || b%4 == off {
+			jobs = append(jobs, "smallf:"+strconv.Itoa(b)+":"+strconv.Itoa(sf))
+		}
+	}
 	return jobs
 }
 
@@ -107,7 +114,11 @@ func (e *bx) flat(sb *strings.Builder, prio map[string]int, parent int, right bo
 	case e.op == "":
 		sb.WriteString(e.leaf)
 	case e.r == nil:
-		sb.WriteString(e.op)
+		if e.op == "neg" {
+			sb.WriteString("-")
+		} else {
+			sb.WriteString(e.op)
+		}
 		if e.l.op != "" {
 			sb.WriteString("(")
 			e.l.flat(sb, prio, 0, false)
@@ -267,6 +278,25 @@ func floatGen(flags int, optimize bool) *funcGen.FunctionGenerator[float64] {
 	return g
 }
 
+// floatGenSmall: a float language whose prefix operator "-" is also its HIGHEST priority binary operator.
+func floatGenSmall(optimize bool) *funcGen.FunctionGenerator[float64] {
+	fromBool := func(b bool) float64 { return sym.IteF(b, 1, 0) }
+	g := funcGen.New[float64]().
+		AddSimpleOp("=", false, func(a, b float64) (float64, error) { return fromBool(a == b), nil }).
+		AddSimpleOp("<", false, func(a, b float64) (float64, error) { return fromBool(a < b), nil }).
+		AddSimpleOp("+", true, func(a, b float64) (float64, error) { return a + b, nil }).
+		AddSimpleOp("-", false, func(a, b float64) (float64, error) { return a - b, nil }).
+		AddUnaryFunc("-", func(a float64) (float64, error) { return -a, nil }).
+		SetToBool(func(c float64) (bool, bool) { return c != 0, true }).
+		SetNumberParser(parser2.NumberParserFunc[float64](func(n string) (float64, error) { return strconv.ParseFloat(n, 64) }))
+	if !optimize {
+		g.SetOptimizer(nil)
+	}
+	return g
+}
+
+var smallPrio = map[string]int{"=": 1, "<": 2, "+": 3, "-": 4}
+
 func (e *bx) evalFloat(env map[string]float64) float64 {
 	fb := func(b bool) float64 { return sym.IteF(b, 1, 0) }
 	switch e.op {
@@ -395,6 +425,26 @@ func c19Run(job string) {
 			var sb strings.Builder
 			e.flat(&sb, boolPrio, 0, false)
 			c19CheckBool(sb.String(), e.evalBool(env), a, b, c, g1, g2)
+		}
+	case "smallf":
+		batch, _ := strconv.Atoi(parts[1])
+		of, _ := strconv.Atoi(parts[2])
+		grid := []float64{-2.5, 0, 0.5, 3}
+		a, b := grid[sym.Choice("a", len(grid))], grid[sym.Choice("b", len(grid))]
+		env := map[string]float64{"a": a, "b": b}
+		g1, g2 := floatGenSmall(true), floatGenSmall(false)
+		memo := map[int][]*bx{}
+		idx := 0
+		for k := 0; k <= 2; k++ {
+			for _, e := range enumExpr(k, []string{"a", "b", "2"}, []string{"=", "<", "+", "-"}, []string{"neg"}, memo) {
+				idx++
+				if idx%of != batch {
+					continue
+				}
+				var sb strings.Builder
+				e.flat(&sb, smallPrio, 0, false)
+				c19CheckFloat(sb.String(), e.evalFloat(env), a, b, g1, g2)
+			}
 		}
 	case "chainf":
 		batch, _ := strconv.Atoi(parts[1])
